@@ -145,6 +145,18 @@ def search(res):
                     res.fail("Tempo-vs-PT:%s" % case["desc"]["system"],
                              {"case": case["desc"], "unique": unique, "epsrel": eps,
                               "max_state_difference": err})
+            # the final state alone (record_all=False) is the last of all recorded states
+            pt11 = cases.make_pt(case, unique=unique, epsrel=1e-11)
+            da = oqupy.compute_dynamics(case["system"], initial_state=case["rho0"], process_tensor=pt11,
+                                        start_time=case["start"], progress_type="silent")
+            df = oqupy.compute_dynamics(case["system"], initial_state=case["rho0"], process_tensor=pt11,
+                                        start_time=case["start"], record_all=False,
+                                        progress_type="silent")
+            err = np.abs(np.array(da.states[-1]) - np.array(df.states[-1])).max()
+            if err > 1e-9:
+                res.fail("final-only:compute_dynamics:%s" % case["desc"]["system"],
+                         {"case": case["desc"], "unique": unique,
+                          "difference_between_record_all_False_and_last_of_record_all_True": err})
             # prefix: first m steps of a longer PT = PT built for exactly m steps
             pt_long = cases.make_pt(case, unique=unique, epsrel=1e-11)
             m = max(2, case["n"] - 1)
@@ -160,6 +172,32 @@ def search(res):
             if err > 1e-7:
                 res.fail("prefix", {"case": case["desc"], "unique": unique, "m": m,
                                     "max_state_difference": err})
+
+
+def search_long(res):
+    """runs far beyond the memory cut-off with an infinite additional correlation time and an
+    algebraically decaying bath memory: TEMPO against PT-TEMPO + compute_dynamics"""
+    import oqupy
+    from oqupy import operators as op
+    for (alpha, nlong) in [(0.01, 120), (0.05, 120)]:
+        corr = oqupy.PowerLawSD(alpha=alpha, zeta=1.0, cutoff=5.0, cutoff_type="exponential",
+                                temperature=0.0)
+        bath = oqupy.Bath(0.5 * op.sigma("z"), corr)
+        sysm = oqupy.System(0.5 * op.sigma("x"))
+        par = oqupy.TempoParameters(dt=0.2, epsrel=1e-9, dkmax=3, add_correlation_time=np.inf)
+        dl = oqupy.Tempo(sysm, bath, par, op.spin_dm("z+"), start_time=0.0).compute(
+            nlong * 0.2 + 0.05, progress_type="silent")
+        ptl = oqupy.pt_tempo_compute(bath=bath, start_time=0.0, end_time=nlong * 0.2 + 0.05,
+                                     parameters=par, progress_type="silent")
+        pdl = oqupy.compute_dynamics(sysm, initial_state=op.spin_dm("z+"), process_tensor=ptl,
+                                     start_time=0.0, progress_type="silent")
+        errs = [np.abs(np.array(a) - np.array(b)).max() for a, b in zip(dl.states, pdl.states)]
+        if len(dl.states) != len(pdl.states) or max(errs) > 2e-6:
+            first = next(k for k, e in enumerate(errs) if e > 2e-6)
+            res.fail("Tempo-vs-PT:long-run beyond the cut-off, add_correlation_time=inf",
+                     {"alpha": alpha, "zeta": 1.0, "cutoff": 5.0, "temperature": 0.0, "dt": 0.2,
+                      "dkmax": 3, "add_correlation_time": "inf", "epsrel": 1e-9, "steps": nlong,
+                      "max_state_difference": max(errs), "first_step_beyond_2e-6": first})
 
 
 def run(tier, seed, replay):
@@ -180,4 +218,4 @@ def run(tier, seed, replay):
         correspondence(res, tier, rng)
     except fw.Infra as e:
         res.oblige("correspondence run", False, str(e))
-    return fw.finish(res, search)
+    return fw.finish(res, lambda r: (search_long(r), search(r)))
